@@ -17,7 +17,7 @@ from hypothesis import strategies as st
 class Objective:
     """Deterministic, finite on the box, picklable. value = sign * base((x - c) / (hi - lo))."""
 
-    FAMILIES = ["sphere", "rastrigin", "step", "linear", "constant", "abssum", "twobasin"]
+    FAMILIES = ["sphere", "rastrigin", "step", "linear", "constant", "abssum", "twobasin", "offset"]
 
     def __init__(self, family, center, lo, hi, sign=1.0, const=1.0, weights=None):
         self.family = family
@@ -45,6 +45,13 @@ class Objective:
             return self.const
         if f == "abssum":
             return float(np.sum(np.abs(u)))
+        if f == "offset":
+            # large constant plus a tiny bowl: neighbouring values differ by ~1e-8 relative (tolerance-based
+            # comparisons such as isclose() cannot tell them apart, exact ones can)
+            return 1000.0 + 1e-4 * float(np.sum(u * u))
+        if f == "nanhole":
+            # undefined (NaN) on part of the box - only used where a property's domain includes such objectives (C19)
+            return float("nan") if u[0] < -0.1 else float(np.sum(u * u))
         if f == "twobasin":
             w = (x - self.lo) / (self.hi - self.lo)
             a = np.sum((w - 0.25) ** 2)
@@ -54,6 +61,8 @@ class Objective:
 
     def __call__(self, x) -> float:
         v = self.base(x)
+        if v != v:
+            return v
         return self.sign * v if v != 0.0 else 0.0 * self.sign + 0.0  # avoid -0.0
 
 
@@ -195,6 +204,8 @@ def level_cfgs(draw, idx: int, nlevels: int, prof: dict):
     elif eng == "Local":
         lv["maxiter"] = draw(st.sampled_from([None, None, 1, 3, 10]))
     kinds = prof.get("lsc_kinds", DEFAULT_LSC_KINDS)
+    if is_root and prof.get("root_lsc_kinds"):
+        kinds = prof["root_lsc_kinds"]
     lv["lsc"] = draw(lscs(kinds))
     lv["wrappers"] = draw(st.lists(st.sampled_from(["count", "stats", "count", "precision", "cutoff"]), max_size=prof.get("max_wrappers", 2)))
     return lv
@@ -239,13 +250,14 @@ def sprouts(draw, box, nlevels, prof):
     k = draw(st.sampled_from(kinds))
     ms = _min_side(box)
     ll_max = prof.get("level_limit_max", 4)
-    s = {"kind": k, "level_limit": draw(st.integers(1, ll_max))}
+    sprouty = bool(prof.get("sprouty"))
+    s = {"kind": k, "level_limit": draw(st.integers(prof.get("level_limit_min", 1), ll_max))}
     if k == "simple":
-        s["far_enough_frac"] = draw(st.sampled_from([0.0, 0.01, 0.05, 0.1, 0.1, 0.5, 2.0]))
+        s["far_enough_frac"] = draw(st.sampled_from([0.0, 0.0, 0.01, 0.05] if sprouty else [0.0, 0.01, 0.05, 0.1, 0.1, 0.5, 2.0]))
     elif k == "nbc":
-        s["gen_dist_factor"] = draw(st.sampled_from([0.5, 1.0, 2.0, 3.0]))
+        s["gen_dist_factor"] = draw(st.sampled_from([0.3, 0.5, 1.0] if sprouty else [0.5, 1.0, 2.0, 3.0]))
         s["trunc_factor"] = draw(st.sampled_from([0.5, 0.7, 1.0]))
-        s["fil_dist_factor"] = draw(st.sampled_from([0.0, 0.5, 1.0, 3.0]))
+        s["fil_dist_factor"] = draw(st.sampled_from([0.0, 0.0, 0.5] if sprouty else [0.0, 0.5, 1.0, 3.0]))
     else:
         gens = prof.get("generators", ["BestPerDeme", "NBC", "NBCLocal", "Scripted", "Scripted"])
         gk = draw(st.sampled_from(gens))
@@ -255,18 +267,20 @@ def sprouts(draw, box, nlevels, prof):
         if gk in ("NBC", "NBCLocal"):
             s["generator"]["distance_factor"] = draw(st.sampled_from([0.3, 0.5, 1.0, 2.0]))
             s["generator"]["truncation_factor"] = draw(st.sampled_from([0.5, 0.7, 1.0]))
+        if gk == "Queue":
+            s["generator"]["nbc_mean_distance_frac"] = draw(st.sampled_from([0.0, 0.01, 0.1]))
         if gk == "Scripted":
             # tape of proposals: per call (per active non-leaf deme per round) how many members, and which
             s["generator"]["tape"] = draw(st.lists(st.lists(st.integers(0, 11), max_size=4), max_size=16))
-            s["generator"]["default_k"] = draw(st.sampled_from([0, 1, 1, 2, 3]))
+            s["generator"]["default_k"] = draw(st.sampled_from([1, 2, 2, 3] if sprouty else [0, 1, 1, 2, 3]))
             s["generator"]["nbc_mean_distance_frac"] = draw(st.sampled_from([0.0, 0.01, 0.1]))
         dfs = []
         for name in draw(st.permutations(["FarEnough", "NBC_FarEnough", "DemeLimit"])):
             if draw(S_BOOL):
                 if name == "FarEnough":
-                    dfs.append({"kind": name, "min_distance_frac": draw(st.sampled_from([0.0, 0.01, 0.1, 0.5])), "norm_ord": draw(st.sampled_from([1, 2, "inf"]))})
+                    dfs.append({"kind": name, "min_distance_frac": draw(st.sampled_from([0.0, 0.0, 0.01] if sprouty else [0.0, 0.01, 0.1, 0.5])), "norm_ord": draw(st.sampled_from([1, 2, "inf"]))})
                 elif name == "NBC_FarEnough":
-                    dfs.append({"kind": name, "factor": draw(st.sampled_from([0.0, 0.5, 1.0, 3.0])), "norm_ord": draw(st.sampled_from([1, 2, "inf"])), "check_only_active": draw(S_BOOL)})
+                    dfs.append({"kind": name, "factor": draw(st.sampled_from([0.0, 0.0, 0.5] if sprouty else [0.0, 0.5, 1.0, 3.0])), "norm_ord": draw(st.sampled_from([1, 2, "inf"])), "check_only_active": draw(S_BOOL)})
                 else:
                     dfs.append({"kind": name, "limit": draw(st.integers(1, 3))})
         s["deme_filters"] = dfs
